@@ -5,12 +5,12 @@ from ..evalprop import *
 
 PID = "C05"
 MANIFEST = {
-    "text": "Theorems over the transcribed evaluator, for every form, environment, module, state and depth: a closure call evaluates the operator first, then the operands strictly left to right (each once, in the state left by the previous one, stopping at the first non-value), then the body in the closure's CAPTURED environment extended with the parameters (the caller's environment does not occur), in tail position; a non-function operator is reported before any operand is evaluated; parameter/argument pairing is exact for lists of ANY length (too few / too many / rest parameter) with the error details the code produces; the innermost binding shadows outer ones and globals. The model itself is the reference evaluator: it is tied to src/native/eval/mod.rs by generated programs (nested closures, shadowing, higher-order calls, rest parameters, arity and type errors in every operand position, side-effecting operands) run on the binary and in the model, compared on value/signal with full structure, output and the number of evaluator steps.",
+    "text": "Theorems over the transcribed evaluator, for every form, environment, module, state and depth: what an evaluation ends in (value, signal or abort) is the same for every sufficient amount of the model's fuel (mutual induction over the six evaluator functions; so the exists-fuel statements about programs are not a choice among behaviours); a closure call evaluates the operator first, then the operands strictly left to right (each once, in the state left by the previous one, stopping at the first non-value), then the body in the closure's CAPTURED environment extended with the parameters (the caller's environment does not occur), in tail position; a non-function operator is reported before any operand is evaluated; parameter/argument pairing is exact for lists of ANY length (too few / too many / rest parameter) with the error details the code produces; the innermost binding shadows outer ones and globals. The model itself is the reference evaluator: it is tied to src/native/eval/mod.rs by generated programs (nested closures, shadowing, higher-order calls, rest parameters, arity and type errors in every operand position, side-effecting operands) run on the binary and in the model, compared on value/signal with full structure, output and the number of evaluator steps.",
     "note": "Trusted: Coq kernel; the hand transcription of eval_internal / pair_params_and_args / lookup (bound by the correspondence); the primitives' argument signatures are generated from the source. An adequacy theorem against a separately written big-step reference semantics is not proved; the one-step rules above characterise the transcription as that semantics construct by construct.",
     "technique": "Coq rules derived from the transcribed evaluator + induction on parameter lists + differential check of generated programs (values, signals, output, step counts)",
 }
 TARGETS = ["Properties/C05.v", "Eval/PreludeState.v"]
-IMPORTS = ["Eval.EvalRules", "Eval.SemProofs", "Properties.C05"]
+IMPORTS = ["Eval.EvalRules", "Eval.SemProofs", "Eval.ModulesPersist", "Eval.FuelMono", "Properties.C05"]
 THEOREMS = [
     ("C05_closure_application", "forall f st st' e env m d first rest st1 op mac restp params body cenv cmod st2 args newenv, poll st = (st', None) -> list_to_vec e = Some (first :: rest) -> special_form first = false -> eval_internal f st' first env m (d + 1)%N = (st1, ROk op) -> getv op = VFun mac restp params body cenv cmod -> eval_args f env m d st1 rest [] = (st2, inl args) -> pair_params (call_source e) params restp args cenv 0 (List.length args) = inl newenv -> eval_loop (S f) st e env m d = eval_loop f st2 body newenv cmod d"),
     ("C05_operands_left_to_right", "forall f env m d st x xs acc st1 v, eval_internal f st x env m (d + 1)%N = (st1, ROk v) -> eval_args f env m d st (x :: xs) acc = eval_args f env m d st1 xs (v :: acc)"),
@@ -23,6 +23,8 @@ THEOREMS = [
     ("C05_inner_binding_shadows", "forall k v env, env_lookup (bind (VSym k) v env) k = LFound v"),
     ("C05_other_bindings_untouched", "forall k k' v env, sym_eqb k' k = false -> env_lookup (bind (VSym k') v env) k = env_lookup env k"),
     ("C05_local_before_global", "forall f st st' e env m d k v, poll st = (st', None) -> list_to_vec e = None -> getv e = VSym k -> env_lookup env k = LFound v -> eval_loop (S f) st e env m d = (st', ROk v)"),
+    ("C05_result_independent_of_fuel", "forall f1 f2 st e env m d st1 r1 st2 r2, cur_ok st -> eval_internal f1 st e env m d = (st1, r1) -> eval_internal f2 st e env m d = (st2, r2) -> r1 <> RFuel -> r2 <> RFuel -> st1 = st2 /\\ r1 = r2"),
+    ("C05_more_fuel_same_result", "forall f f' st e env m d st' r, (f <= f')%nat -> cur_ok st -> eval_internal f st e env m d = (st', r) -> r <> RFuel -> eval_internal f' st e env m d = (st', r)"),
 ]
 
 FIXED = [
